@@ -10,6 +10,7 @@ mod lexcheck;
 mod monitor;
 mod ops;
 mod panics;
+mod serdecheck;
 mod strcheck;
 
 use serde_json::{Value, json};
@@ -88,6 +89,17 @@ fn real_main() {
             let shard: usize = args.get(3).and_then(|s| s.parse().ok()).unwrap_or(0);
             let n: usize = args.get(4).and_then(|s| s.parse().ok()).unwrap_or(1);
             match panics::guarded(|| strcheck::exhaustive(max, shard, n)) {
+                Ok(v) => println!("{v}"),
+                Err(p) => println!("{}", json!({"panic": panics::to_json(&p)})),
+            }
+        }
+        "serde" => {
+            // kvrun serde <seed> <trees> <rust values> <corruptions per document>
+            let seed: u64 = args.get(2).and_then(|s| s.parse().ok()).unwrap_or(1);
+            let trees: u64 = args.get(3).and_then(|s| s.parse().ok()).unwrap_or(100);
+            let rust: u64 = args.get(4).and_then(|s| s.parse().ok()).unwrap_or(100);
+            let corr: usize = args.get(5).and_then(|s| s.parse().ok()).unwrap_or(5);
+            match panics::guarded(|| serdecheck::run(seed, trees, rust, corr)) {
                 Ok(v) => println!("{v}"),
                 Err(p) => println!("{}", json!({"panic": panics::to_json(&p)})),
             }
